@@ -50,6 +50,13 @@ def run(ix, R):
                 'whole rows are permuted by the argsort of the wavelength column, descending (ascending wavenumber)',
                 fmt(fl, s.target) == 'self._obs_spectrum' and (fl.tab.equal(s.value, want) or fl.tab.equal(s.value, alt)),
                 key=fmt(fl, s.value), detail='table becomes %s' % fmt(fl, s.value), loc=f.loc(s.node))
+        cond = [g.text() for g in s.guards] + [unparse(l.iter_ast) for l in s.loops]
+        early = [unparse(r.node) for r in fl.of('return') if fl.events.index(r) < fl.events.index(s)]
+        R.check('1.sort.always', 'PERM', site,
+                'the row sort is unconditional (no shortcut decides from a few rows that the table is already ordered)',
+                not cond and not early, key='sort under %s' % (cond or early),
+                detail='the sort only runs when %s; a table that passes the shortcut but is not fully ordered keeps file order' % (
+                    cond or early), loc=f.loc(s.node))
     site = A + '.__init__'
     with R.guard('1.order', 'DOM', site, 'sort first'):
         f = ix.func(site)
@@ -85,6 +92,29 @@ def run(ix, R):
         f, fl, r = ret(ix, site)
         R.check('1.raw', 'PERM', site, 'rawData is the sorted table', fmt(fl, r.value) == 'self._obs_spectrum',
                 key=fmt(fl, r.value), detail=fmt(fl, r.value), loc=f.loc(r.node))
+    # who may write the derived state: only ArraySpectrum itself
+    base = ix.cls(A)
+    owned = {'_obs_spectrum', '_bin_widths', '_bin_edges', '_wnwidths'}
+    for c in ix.subclasses(base):
+        for lst in c.methods.values():
+            for fn in lst:
+                bad = []
+                for n in ast.walk(fn.node):
+                    if isinstance(n, (ast.Assign, ast.AugAssign)):
+                        tg = n.targets if isinstance(n, ast.Assign) else [n.target]
+                        for t in tg:
+                            for x in ast.walk(t):
+                                if isinstance(x, ast.Attribute) and x.attr in owned and \
+                                        isinstance(x.value, ast.Name) and x.value.id == 'self':
+                                    bad.append(unparse(n)[:70])
+                allowed = c is base and fn.name in ('__init__', '_sort_spectrum', '_process_spectrum', 'manual_binning')
+                if bad and not allowed:
+                    R.fail('1.owner', 'EFF', fn.site,
+                           'the sorted table and the widths / edges derived from it are written only by ArraySpectrum\'s '
+                           'own constructor pipeline', 'writes %s' % sorted(set(bad)),
+                           '%s overwrites state that ArraySpectrum derives from the sorted rows (%s): the value written is '
+                           'not re-ordered with the rows' % (fn.qualname, sorted(set(bad))), fn.loc())
+    R.ok('1.owner.scan', 'EFF', A, 'every ArraySpectrum subclass method was scanned for writes to the derived state (%d classes)' % len(ix.subclasses(base)))
     # ---- 2. formulas
     for site, want, stmt in ((A + '.wavenumberGrid', '10000/self.wavelengthGrid', 'wavenumber = 10000/wavelength'),
                              (SP + '::BaseSpectrum.wavenumberGrid', '10000/self.wavelengthGrid', 'wavenumber = 10000/wavelength'),
@@ -180,6 +210,8 @@ def run(ix, R):
 
 
 MUTANTS = [
+    ('seed-c17-a-shortcut', AR, "    def _sort_spectrum(self):\n        self._obs_spectrum =", "    def _sort_spectrum(self):\n        if self._obs_spectrum[0, 0] > self._obs_spectrum[-1, 0]:\n            return\n        self._obs_spectrum =", '1.sort.always'),
+    ('seed-c17-b-overwrite', TX, "        super().__init__(self._load_from_hdf5(filename))", "        super().__init__(self._load_from_hdf5(filename))\n        self._wnwidths = self._bin_widths", '1.owner'),
     ('sort-col-only', AR, 'self._obs_spectrum = self._obs_spectrum[self._obs_spectrum[:, 0].argsort(axis=0)[::-1]]', 'self._obs_spectrum[:, 0] = self._obs_spectrum[self._obs_spectrum[:, 0].argsort(axis=0)[::-1], 0]', '1.sort'),
     ('sort-ascending', AR, 'self._obs_spectrum = self._obs_spectrum[self._obs_spectrum[:, 0].argsort(axis=0)[::-1]]', 'self._obs_spectrum = self._obs_spectrum[self._obs_spectrum[:, 0].argsort(axis=0)]', '1.sort'),
     ('sort-wrong-col', AR, 'self._obs_spectrum = self._obs_spectrum[self._obs_spectrum[:, 0].argsort(axis=0)[::-1]]', 'self._obs_spectrum = self._obs_spectrum[self._obs_spectrum[:, 1].argsort(axis=0)[::-1]]', '1.sort'),
